@@ -652,6 +652,13 @@ def inject_faults(rng, M, limit):
                 nd, cho, od = via_choice(nd, src, dst)
                 return put(nd, dst, (get(nd, dst)[0], cho, od))
             variants.append(('via-inline-choice', v_inline, []))
+            # (c') … the colliding alternative is an extension addition of the untagged CHOICE (after its `...`)
+            def v_inline_ext(nd, src=x, dst=y):
+                nd, cho, od = via_choice(nd, src, dst)
+                cho = ('constr', None, 'cho', [cho[3][0]], True, [cho[3][1]])
+                return put(nd, dst, (get(nd, dst)[0], cho, od))
+            if rng.random() < 0.5:
+                variants.append(('via-inline-choice-ext', v_inline_ext, []))
             if rng.random() < 0.3:
                 variants.append(('via-inline-choice', lambda nd: v_inline(nd, y, x), []))
             # (d) … through a reference chain X1 -> X2 -> CHOICE.  An untagged type reference
